@@ -7,7 +7,7 @@ not compressed, loose files named by their digest - and the documented recovery 
 """
 from ..rawread import invariants
 from ..seqx import SeqSpec, explore
-from ..world import core_alphabet, variant_alphabet
+from ..world import ABSENT_IDX, core_alphabet, variant_alphabet
 from .c02 import ROOT_PREFIXES, _tuplify
 
 LEVEL = 'model_checking'
@@ -78,10 +78,27 @@ class TwoHandleSpec(Spec):
     def variant_ops(self, root_name):
         ops = []
         for h in (0, 1):
-            ops += [('on', h, ('q', 'has')), ('on', h, ('topack', (1,), True, True, False)), ('on', h, ('pack', 'YES', True, True)),
+            ops += [('on', h, ('topack', (1,), True, True, False)), ('on', h, ('pack', 'YES', True, True)),
                     ('on', h, ('repack_pack', 0, 'YES')), ('on', h, ('add', 3)), ('on', h, ('loosen', 2)), ('on', h, ('delete', (1,))),
-                    ('on', h, ('delete', (2, 3)))]
+                    ('on', h, ('delete', (2, 3))), ('on', h, ('delete', (ABSENT_IDX,))), ('on', h, ('reopen',))]
         return ops
+
+    def enabled(self, hist, op):
+        # delete_objects is documented as an operation to run while no other process accesses the container: after a deletion
+        # through one handle, the other handle must be reopened before it is used again (queries through other handles are not
+        # part of this pass at all - C08 covers what they may assume)
+        stale = set()
+        for o in hist:
+            h, inner = o[1], o[2]
+            if inner[0] == 'delete':
+                stale.add(1 - h)
+            elif inner[0] == 'reopen':
+                stale.discard(h)
+        if op[1] in stale and op[2][0] != 'reopen':
+            return False
+        if op[2][0] == 'reopen' and op[1] not in stale:
+            return False
+        return True
 
     def state_check(self, world, raw, hist):
         probs = list(invariants(raw))
